@@ -14,7 +14,15 @@ insts = []
 SLOT = {8: "uint8_t", 16: "uint16_t", 32: "uint32_t", 64: "uint64_t"}
 
 
+SPECS = []
+
+
 def emit(idx, width, slotbits, compact, extra_defs, tag, lentype="uint32_t", maxel=0xffffffff):
+    SPECS.append(dict(width=width, slotbits=slotbits, compact=compact, extra_defs=extra_defs, tag=tag, lentype=lentype, maxel=maxel,
+                      intree=tag.startswith("in-tree")))
+
+
+def emit_real(idx, width, slotbits, compact, extra_defs, tag, lentype, maxel, intree):
     prefix = "pk%d_" % idx
     out.append("/* instance %d: %s */" % (idx, tag))
     out.append("#define PACK_STORAGE_BITS %d" % width)
@@ -35,7 +43,7 @@ def emit(idx, width, slotbits, compact, extra_defs, tag, lentype="uint32_t", max
     out.append("static void w%d_delete(void *d, uint32_t len, uint32_t o) { %sDelete(d, (%s)len, (%s)o); }" % (idx, f, lentype, lentype))
     out.append("static int w%d_delete_member(void *d, uint32_t len, uint64_t v) { return %sDeleteMember(d, (%s)len, v); }" % (idx, f, lentype))
     out.append("")
-    insts.append((idx, width, slotbits, compact, tag, maxel))
+    insts.append((idx, width, slotbits, compact, tag, maxel, intree))
 
 
 idx = 0
@@ -81,6 +89,24 @@ for (width, slotbits, compact, maxel) in ((12, 8, 0, 60000), (12, 8, 1, 250), (3
          lentype="uint8_t" if maxel <= 255 else "uint16_t", maxel=maxel)
     idx += 1
 
+# Include order matters for a header that is instantiated by re-inclusion: whatever one instantiation leaves defined
+# is inherited by the next. Narrow-length-type instances (which set PACK_MAX_ELEMENTS) therefore come FIRST and are then
+# interleaved with the default ones, so that every kind of instance is followed by instances relying on the defaults.
+narrow = [x for x in SPECS if x["tag"].startswith("narrow")]
+rest = [x for x in SPECS if not x["tag"].startswith("narrow")]
+ordered = []
+ni = 0
+for k, x in enumerate(rest):
+    if k % 10 == 0 and narrow:
+        ordered.append(narrow[ni % len(narrow)] if ni < len(narrow) else None)
+        ni += 1
+    ordered.append(x)
+ordered = [x for x in ordered if x is not None]
+for x in narrow[ni:]:
+    ordered.append(x)
+for k, x in enumerate(ordered):
+    emit_real(k, **x)
+
 out.append("typedef struct pinst {")
 out.append("    const char *tag; int width, slotbits, compact, intree; uint32_t maxel;")
 out.append("    void (*set)(void *, uint32_t, uint64_t); uint64_t (*get)(const void *, uint32_t);")
@@ -90,9 +116,9 @@ out.append("    void (*insert)(void *, uint32_t, uint32_t, uint64_t); void (*ins
 out.append("    void (*del)(void *, uint32_t, uint32_t); int (*del_member)(void *, uint32_t, uint64_t);")
 out.append("} pinst;")
 out.append("static const pinst PINST[] = {")
-for (i, w, s, c, tag, maxel) in insts:
+for (i, w, s, c, tag, maxel, intree) in insts:
     out.append('    {"%s", %d, %d, %d, %d, %du, w%d_set, w%d_get, w%d_incr, w%d_half, w%d_bsearch, w%d_member, w%d_insert, w%d_insert_sorted, w%d_delete, w%d_delete_member},'
-               % (tag, w, s, c, 1 if intree_first <= i < intree_last else 0, maxel, i, i, i, i, i, i, i, i, i, i))
+               % (tag, w, s, c, 1 if intree else 0, maxel, i, i, i, i, i, i, i, i, i, i))
 out.append("};")
 out.append("#define NPINST %d" % len(insts))
 here = os.path.dirname(os.path.abspath(__file__))
